@@ -156,6 +156,16 @@ theorem c19_format_capacity (t : Int) (h0 : 0 ≤ t) (h1 : t ≤ maxInstant) (f 
 theorem c19_gen_formatters (tm : Tm) (f : Fmt) (short : Bool) : formatTextGen tm f short = formatText tm f short :=
   Main.c19_gen_formatters tm f short
 
+/-- **Generated local-time formatter dispatch.**  For a fixed-offset process zone `z` the six local-time
+formatter cases format `local_time` (never `gmt_time`): RFC 822 full is the UTC layout with `%Z` (the zone
+name) in place of "GMT", the others are the UTC layouts applied to the local broken-down time. -/
+theorem c19_gen_local_formatters (z : Zone) (dt : DateTime) (f : Fmt) (short : Bool) :
+    formatLocalText z dt f short =
+      match f, short with
+      | .rfc822, false => some (fmtRfc822Body (localtime z dt.timestamp) ++ z.name)
+      | f, short => formatText (localtime z dt.timestamp) f short :=
+  Main.c19_gen_local_formatters z dt f short
+
 /-- **Generated month table.**  The compare chain of `get_month_number_from_str` maps each of the twelve
 names `strftime` emits for `%b` to its own month number. -/
 theorem c19_gen_month_table : ∀ m : Fin 12, monthNumber (monthName (m.val : Int) ++ [32]) = some m.val :=
